@@ -271,6 +271,19 @@ def cached_defaults(ctx, f, deco, site):
     if not rows:
         return
     dests = {d for d, _ in rows if d}
+    hits = inplace_option_mutations(ctx, dests)
+    label = "@%s %s :: default containers" % (norm(site), f.name)
+    if hits:
+        g, n, d = hits[0]
+        ctx.violated("C09.2", g, "%s keeps the parser - and the default container of option %r - for the whole process, and `%s` modifies the value of %r in place: "
+                     "when the option is not given this is the shared default, so the next operation starts from what this one left in it" % (deco, d, norm(n)[:70], d), label)
+    else:
+        ctx.holds("C09.2", f, "%s keeps %d default container(s) alive, none of the option values (%s) is ever modified in place" % (deco, len(rows), ", ".join(sorted(dests))), label)
+
+
+def inplace_option_mutations(ctx, dests):
+    """[(function, statement, dest)] : statements that modify in place a value read from an option by name
+    (ns.dest / kw['dest'] / kw.get('dest') / kw.setdefault('dest', ...), directly or through one local alias)."""
     hits = []
     for g in ctx.prog.functions.values():
         alias = {}       # local name -> dest it was read from
@@ -294,13 +307,7 @@ def cached_defaults(ctx, f, deco, site):
             d = _dest_read(recv, dests) or (alias.get(recv.id) if isinstance(recv, ast.Name) else None)
             if d and not (isinstance(n, ast.Call) and n.func.attr == "setdefault" and _dest_read(n, dests)):
                 hits.append((g, n, d))
-    label = "@%s %s :: default containers" % (norm(site), f.name)
-    if hits:
-        g, n, d = hits[0]
-        ctx.violated("C09.2", g, "%s keeps the parser - and the default container of option %r - for the whole process, and `%s` modifies the value of %r in place: "
-                     "when the option is not given this is the shared default, so the next operation starts from what this one left in it" % (deco, d, norm(n)[:70], d), label)
-    else:
-        ctx.holds("C09.2", f, "%s keeps %d default container(s) alive, none of the option values (%s) is ever modified in place" % (deco, len(rows), ", ".join(sorted(dests))), label)
+    return hits
 
 
 def _dest_read(e, dests):
@@ -596,7 +603,7 @@ QUICK_CANARIES = True
 CLAIM = {
     "text": "Decided for all operation histories as a state inventory: every process-lifetime slot the package writes is enumerated and shown result-irrelevant (discarded callback results, "
             "unused flag value, output-only streams and logging) or operation-scoped by unconditional re-initialisation; memoisation of anything that depends on the file system, clock, "
-            "environment or enumeration is a violation. With no result-relevant slot, an operation's result is a function of its arguments and the file system only.",
+            "environment or enumeration is a violation. With no result-relevant slot, an operation's result is a function of its arguments and the file system only. C09.2 also covers a memoised argument-parser builder: its default containers live for the whole process, so any in-place modification of such an option value is a violation.",
     "note": "Trusted: the inventory's notion of process-lifetime state (module/class objects, decorator instances, functools caches, os.environ, sys streams, logging, cwd); "
             "user-supplied callbacks may do anything but their return values are discarded by the package; explicit data flow only.",
     "technique": "process-lifetime state inventory over the AST, effect summaries for purity of memoised functions, def-use into return values, CFG dominance for re-initialisation",
